@@ -176,7 +176,18 @@ def run_tasks(tasks, jobs, case_timeout):
                 del running[idx]
                 progressed = True
             elif not proc.is_alive():
-                results[idx] = _lost(task, "worker process died (exit code %s): solver crash?" % proc.exitcode)
+                # the worker may have sent its result and exited between the poll above and this test: look again before
+                # declaring it dead (a result that is in the pipe is never thrown away)
+                res = None
+                if conn.poll(0.5):
+                    try:
+                        res = conn.recv()
+                    except EOFError:
+                        res = None
+                if res is not None:
+                    results[idx] = _lost(task, "worker failed: " + res["__died__"]) if "__died__" in res else res
+                else:
+                    results[idx] = _lost(task, "worker process died (exit code %s): solver crash?" % proc.exitcode)
                 del running[idx]
                 progressed = True
             elif time.time() - t_start > case_timeout:
